@@ -12,7 +12,7 @@ rsync -a --exclude target --exclude replays --exclude evidence /verif/ $MX/verif
 sed -i "s#/repo/#$MX/repo/#g" $MX/verif/harness/Cargo.toml
 export VERIF_TARGET_DIR=$MX/target
 export VERIF_CASES_PERCENT=${VERIF_CASES_PERCENT:-25}
-OUT=/verif/seeded/MATRIX.tsv
+OUT=${MATRIX_OUT:-/verif/seeded/MATRIX.tsv}
 SEEDS=("$@"); [ ${#SEEDS[@]} -eq 0 ] && SEEDS=($(ls -d /verif/seeded/C*-v* | xargs -n1 basename))
 IDS=$(for i in $(seq -w 1 20); do echo C$i; done)
 echo -e "seed\t$(echo $IDS | tr ' ' '\t')" > $OUT
